@@ -30,6 +30,8 @@ FEATSETS = [(), ('EQUALITY_OPERATORS',), ('BUILTIN_FUNCTIONS',), ('BUILTIN_FUNCT
 XS = (0, 1, 2, 3, 5, 99)
 
 MAIN_SRC = '''\
+import functools
+
 K = 0
 OUT = None
 
@@ -110,6 +112,25 @@ def caller(x, l):
   r = cal_target(x, l)
   s = helper(x)
   return ('caller', r, s)
+
+
+def deco(f):
+  @functools.wraps(f)
+  def wrapper(x, l):
+    l.append('w')
+    if x == 0:
+      return ('wrapped-early', K)
+    return ('wrapper', f(x, l))
+  return wrapper
+
+
+def inner_target(x, l):
+  if x == 3:
+    l.append('three')
+  return ('inner', x - K)
+
+
+decorated = deco(inner_target)
 
 
 def make_dual(which):
@@ -280,6 +301,9 @@ def build_universe(lane, u):
   lists['duals'] = duals
   add('a.dual@if', duals[0], group='dual')
   add('a.dual@else', duals[1], droppable=True, dropper=del_item(duals, 1), group='dual')
+  # a functools.wraps wrapper and the function it wraps: distinct code objects linked by __wrapped__
+  add('a.decorated', a.decorated, group='deco')
+  add('a.inner_target', a.inner_target, group='deco')
   # harness ids for code objects (identity, never id() at comparison time)
   codes = []
   for e in E:
@@ -684,7 +708,7 @@ def make_plan(seed, index, tier, sub):
   u = seed % 4 if tier == 'quick' else (seed * 7 + index % 4) % 64
   nfn = 18
   # focus: a few groups per run so that requests collide on cache entries
-  groups = [[0, 1, 8], [2, 3, 4, 9], [5, 6, 7], [10, 11], [12, 13], [14, 15], [16, 18, 19], [17], [20, 21]]
+  groups = [[0, 1, 8], [2, 3, 4, 9], [5, 6, 7], [10, 11], [12, 13], [14, 15], [16, 18, 19], [17], [22, 23], [20, 21]]
   k = rng.choice([1, 1, 2, 2, 3])
   chosen = rng.sample(groups, k)
   fids = sorted(set(f for g in chosen for f in g))
@@ -1272,8 +1296,13 @@ def run_job(lane, job, rdir):
     run.violations.append({'rule': 'R6', 'sig': 'deadlock',
                            'msg': 'deadlock: every unfinished request waits for a lock: %s' % outcome['wait_for']})
   elif outcome['status'] == 'step-cap':
-    res['status'] = 'inconclusive'
-    res['detail'] = outcome
+    if plan['strategy'].get('name') == 'serial' and schedule is None:
+      # even the serial (trivially fair) schedule does not let every request return
+      run.violations.append({'rule': 'R6', 'sig': 'no-progress',
+                             'msg': 'a request does not return within %d steps under the serial schedule' % sim.steps})
+    else:
+      res['status'] = 'inconclusive'
+      res['detail'] = outcome
   harness = [v for v in run.violations if v['rule'] == 'HARNESS']
   real = [v for v in run.violations if v['rule'] != 'HARNESS']
   if harness:
